@@ -189,7 +189,9 @@ def shared_container_writes(index, rel):
 
     def is_container(v):
         return isinstance(v, (ast.List, ast.Dict, ast.Set)) or (isinstance(v, ast.Call) and (dotted(v.func) or "").split(".")[-1] in (
-            "list", "dict", "set", "defaultdict", "OrderedDict", "Counter", "deque"))
+            "list", "dict", "set", "defaultdict", "OrderedDict", "Counter", "deque")) or (
+            isinstance(v, ast.Call) and (dotted(v.func) or "") in ("np.array", "np.zeros", "np.ones", "np.full", "np.empty", "np.arange", "np.linspace",
+                                                                    "np.asarray", "pd.DataFrame", "pd.Series"))
 
     for st in mod.body:
         if isinstance(st, ast.Assign) and isinstance(st.targets[0], ast.Name) and is_container(st.value):
@@ -211,6 +213,39 @@ def shared_container_writes(index, rel):
                           for s in walk_no_nested(fn)) or short in [a.arg for a in fn.args.args]
             if shadows and kind == "module":
                 continue
+            # locals that are another name for the shared object: `x = self.NAME` / `x = Cls.NAME` / `x = NAME` (no copy made)
+            aliases = set()
+            for s in walk_no_nested(fn):
+                if isinstance(s, ast.Assign) and len(s.targets) == 1 and isinstance(s.targets[0], ast.Name):
+                    dv = dotted(s.value) or ""
+                    if (dv == short and kind == "module" and not shadows) or (dv.endswith("." + short) and kind == "class"):
+                        aliases.add(s.targets[0].id)
+            for s in walk_no_nested(fn):
+                if isinstance(s, ast.AugAssign) and isinstance(s.target, ast.Name) and s.target.id in aliases:
+                    # in place for arrays, lists, sets and dicts: the shared object itself changes - if the name can still stand for it here
+                    from .core import _reaching
+                    try:
+                        defs_here = _reaching(fn, s).get(s.target.id, [])
+                    except Exception:
+                        defs_here = [None]
+                    if any(d_ is None or (dotted(d_) or "") == short and kind == "module" or (dotted(d_) or "").endswith("." + short) and kind == "class"
+                           for d_ in defs_here):
+                        bad.append(f"{fn.name}:{s.lineno}")
+                if isinstance(s, ast.AugAssign) and isinstance(s.target, ast.Attribute):
+                    d = dotted(s.target) or ""
+                    if d.endswith("." + short) and kind == "class":
+                        bad.append(f"{fn.name}:{s.lineno}")
+                if isinstance(s, (ast.Assign, ast.AugAssign, ast.Delete)):
+                    for t in (s.targets if not isinstance(s, ast.AugAssign) else [s.target]):
+                        base = t
+                        while isinstance(base, ast.Subscript):
+                            base = base.value
+                        if isinstance(t, ast.Subscript) and isinstance(base, ast.Name) and base.id in aliases:
+                            bad.append(f"{fn.name}:{s.lineno}")
+                if isinstance(s, ast.Call) and isinstance(s.func, ast.Attribute) and isinstance(s.func.value, ast.Name) and s.func.value.id in aliases \
+                        and s.func.attr in ("append", "extend", "update", "pop", "clear", "insert", "remove", "setdefault", "sort", "add", "discard",
+                                            "popitem", "fill", "resize", "put", "itemset"):
+                    bad.append(f"{fn.name}:{s.lineno}")
             # an instance attribute of the same name assigned in this function shadows the class attribute for `self.<name>`
             for s in walk_no_nested(fn):
                 if isinstance(s, (ast.Assign, ast.AugAssign, ast.Delete)):
